@@ -1,8 +1,20 @@
 package simworld
 
 import (
+	"fmt"
 	"math/rand"
+	"os"
 )
+
+// tapeFile, when set (VERIF_TAPE_FILE), receives every value before it is used, so the tape of a run that
+// kills the process can be recovered.
+var tapeFile *os.File
+
+func init() {
+	if p := os.Getenv("VERIF_TAPE_FILE"); p != "" {
+		tapeFile, _ = os.OpenFile(p, os.O_WRONLY|os.O_APPEND|os.O_CREATE, 0o644)
+	}
+}
 
 // Tape is the single source of every decision of a simulated run. In
 // generation mode it draws from a PRNG seeded by the run seed and records what
@@ -28,6 +40,9 @@ func ReplayTape(sparse map[int]int) *Tape {
 func (t *Tape) Replaying() bool { return t.isRep }
 
 func (t *Tape) put(v int) int {
+	if tapeFile != nil {
+		fmt.Fprintf(tapeFile, "%d ", v)
+	}
 	t.Rec = append(t.Rec, v)
 	t.Pos++
 	if v != 0 {
